@@ -15,15 +15,20 @@ CORR_HEADER = ("From Coq Require Import ZArith QArith List String.\n"
                "From ACN Require Import Base.Num Model.EVSE Model.SimSkel Model.SimIface.\nImport ListNotations.\n"
                "Open Scope string_scope.\nOpen Scope Z_scope.\n")
 CHECK_FN = "check_c05"
-SHARD = 15
-RULE = ("the C01 generator (1-8 stations of mixed EVSE classes, optional constraints, 0-25 mostly valid sessions with forced "
-        "back-to-back reuse / simultaneous events, extra RecomputeEvents, max_recompute in {None,1,2,5}, period in {1,5,15}); "
-        "every history is run twice on the real Simulator — with a recording scheduler and with a recording scheduler that then "
-        "overwrites every field of every object it can reach through the Interface — and the recorded views (current_time, "
-        "current_datetime, SessionInfo fields incl. remaining_time / arrival_offset, last_applied_pilot_signals, "
-        "last_actual_charging_rate, get_prev_peak, infrastructure arrays), per-period charging rates, final energies, peak and "
-        "final iteration are compared with the model replaying the returned schedules; distinct = distinct (network, sessions, "
-        "recomputes, max_recompute, period, scheduler kind/seed); ambiguous = a remaining demand within 1e-7 of 1e-3")
+SHARD = 19
+RULE = ("the C01 generator (1-8 stations of mixed EVSE classes and id styles, optional constraints, 0-25 mostly valid sessions with "
+        "forced back-to-back reuse / simultaneous events, extra RecomputeEvents, max_recompute in {None,0,1,2,3,5}, period in "
+        "{0.5,1,2.5,5,7,15}, mixed int/float/numpy types) with the families plain / reuse (same network, EventQueue and scheduler objects "
+        "after a prelude simulation) / twin (same station ids and constraint names, other values, run nested inside a scheduler call) / "
+        "resume (scheduler raises, run() again) / netupdate (update/add/remove_constraint between calls: later views must show the "
+        "new description) / 10% malformed; every history is run twice on the real Simulator - with a recording scheduler and with one "
+        "that then overwrites every object reachable through the Interface and the schedule it returned last time - and the recorded "
+        "views (current_time, current_datetime, SessionInfo fields incl. remaining_time / arrival_offset, last_applied_pilot_signals, "
+        "last_actual_charging_rate, get_prev_peak, infrastructure arrays), per-period charging rates, final energies, peak and final "
+        "iteration are compared with the model replaying the returned schedules; monitors additionally check get_constraints, the "
+        "per-station accessors, remaining_amp_periods, the deprecated active_evs accessor, held objects and caller-owned arguments; "
+        "distinct = distinct (network, sessions, recomputes, max_recompute, period, scheduler kind/seed, family, id style); ambiguous = a "
+        "remaining demand within 1e-7 of 1e-3 (still monitored)")
 ASSUMPTIONS = S_ASSUMPTIONS = [
     "schedulers are modelled as arbitrary functions view -> schedule; isolation of the real objects handed out by the Interface "
     "is established by the mutating-scheduler run of the correspondence, not by a theorem",
@@ -33,30 +38,27 @@ TRUSTED_EXTRA = ["tools/sim_params.py, py2coq additive extensions used by tools/
 
 
 # ---------------------------------------------------------------------------------------------
-def cid_num(name):
-    return int(name[1:])
-
-
 def view_coq(c, period):
     minutes = F((c["dt"] - S.START) / timedelta(seconds=1)) / 60
     sess = coq_list(["(mkSinfo %s %s %s %s %s %s %s %s %s %s)" % (
-        z(S.st_num(s["station"])), z(S.sess_num(s["sid"])), q(s["req"]), q(s["deliv"]), z(s["arr"]), z(s["dep"]),
+        z(s["station"]), z(s["sid"]), q(s["req"]), q(s["deliv"]), z(s["arr"]), z(s["dep"]),
         z(s["est"]), z(s["time"]), z(s["remaining"]), z(s["offset"])) for s in c["sessions"]])
-    lp = coq_list(["(%s, %s)" % (z(S.sess_num(k)), q(v)) for k, v in c["last_pilots"]])
-    lr = coq_list(["(%s, %s)" % (z(S.sess_num(k)), q(v)) for k, v in c["last_rates"]])
+    lp = coq_list(["(%s, %s)" % (z(k), q(v)) for k, v in c["last_pilots"]])
+    lr = coq_list(["(%s, %s)" % (z(k), q(v)) for k, v in c["last_rates"]])
     i = c["infra"]
     ql = lambda xs: coq_list([q(x) for x in xs])
     infra = "(mkInfra %s %s %s %s %s %s %s %s %s %s)" % (
-        coq_list([z(S.st_num(n)) for n in i["ids"]]), ql(i["voltages"]), ql(i["phases"]), ql(i["max"]), ql(i["min"]),
+        coq_list([z(n) for n in i["ids"]]), ql(i["voltages"]), ql(i["phases"]), ql(i["max"]), ql(i["min"]),
         coq_list([ql(a) for a in i["allow"]]), coq_list([coq_bool(b) for b in i["cont"]]),
-        coq_list([ql(r) for r in i["cmat"]]), ql(i["limits"]), coq_list([z(cid_num(n)) for n in i["cids"]]))
+        coq_list([ql(r) for r in i["cmat"]]), ql(i["limits"]), coq_list([z(n) for n in i["cids"]]))
     return "(mkView %s %s %s %s %s %s %s)" % (z(c["t"]), q(minutes), sess, lp, lr, q(c["peak"]), infra)
 
 
 def strip_call(c):
     """the part of a recorded call that must be identical in the plain and the mutating run"""
     return {k: c[k] for k in ("t", "dt", "n_hist", "sessions", "last_pilots", "last_rates", "peak", "infra",
-                              "constraints", "per_station", "truth", "truth_pilots", "truth_peak", "schedule")}
+                              "constraints", "per_station", "amp_periods", "evs_accessor", "truth", "truth_pilots",
+                              "truth_peak", "schedule")}
 
 
 def same_trace(a, b):
@@ -66,9 +68,7 @@ def same_trace(a, b):
     return [strip_call(c) for c in a["calls"]] == [strip_call(c) for c in b["calls"]]
 
 
-def make_case(inp):
-    impl = S.run_impl(inp)
-    mut = S.run_impl(inp, mutate=True)
+def case_of(inp, impl, mut):
     same = same_trace(impl, mut)
     amb = min(impl["min_margin"], mut["min_margin"]) < 1e-7 or impl.get("stage") == "build"
     if impl["error"] in ("StationOccupiedError", "KeyError") and impl["hist"]:
@@ -76,33 +76,46 @@ def make_case(inp):
         if last[1] == "Plugin" and sum(1 for s in inp["sessions"] if s["arrival"] == last[2]) > 1:
             amb = True          # which of several simultaneous plugins raises depends on heap order (C11)
     rates = coq_list(["(%s, %s)" % (z(t), coq_list([q(x) for x in col])) for t, col in enumerate(impl["rates"])])
-    energy = coq_list(["(%s, %s)" % (z(S.sess_num(k)), q(v)) for k, v in impl["energy"]])
+    energy = coq_list(["(%s, %s)" % (z(k), q(v)) for k, v in impl["energy"]])
     coq = "(mkC05 %s\n  %s %s\n  %s %s %s %s %s)" % (
         S.input_coq(inp, impl), coq_opt(impl["error"], coq_str),
         coq_list([view_coq(c, inp["period"]) for c in impl["calls"]]),
         rates, energy, q(impl["peak"]), z(impl["iteration"]), coq_bool(same))
-    kind = ("malformed/" + inp["malformed"]) if inp["malformed"] else ("valid/" + inp["sched"]["kind"])
+    fam = inp.get("family", "plain")
+    kind = ("malformed/" + inp["malformed"]) if inp["malformed"] else ("%s/%s" % ("valid" if fam == "plain" else fam, inp["sched"]["kind"]))
     return dict(input=inp, impl=slim(impl), mut_same=same, coq=coq, ambiguous=amb, kind=kind,
-                sig=[inp["net"], inp["sessions"], inp["recomputes"], inp["max_recompute"], inp["period"], inp["sched"]],
-                nontrivial=len(impl["calls"]) > 0, _full=(impl, mut))
+                sig=[inp["net"], inp["sessions"], inp["recomputes"], inp["max_recompute"], inp["period"], inp["sched"], fam,
+                     inp.get("idstyle")],
+                nontrivial=len(impl["calls"]) > 0, monitor=monitor_full(inp, impl, mut))
+
+
+def make_cases(inp):
+    impl = S.run_impl(inp)
+    mut = S.run_impl(inp, mutate=True)
+    out = [case_of(inp, impl, mut)]
+    if "twin_trace" in impl and "twin_trace" in mut:
+        out.append(case_of(dict(inp["twin"], family="twin"), impl["twin_trace"], mut["twin_trace"]))
+    return out
 
 
 def slim(impl):
     return dict(error=impl["error"], iteration=impl["iteration"], n_calls=len(impl["calls"]),
-                call_times=[c["t"] for c in impl["calls"]], hist=impl["hist"], peak=impl["peak"])
+                call_times=[c["t"] for c in impl["calls"]], hist=impl["hist"], peak=impl["peak"], flags=impl.get("flags", []))
 
 
 MALFORMED = ["overlap", "bad_departure", "bad_estimate", "unknown_station"]
+FAMILIES = [("reuse", 0.07), ("twin", 0.06), ("resume", 0.06), ("netupdate", 0.08)]
 
 
 def gen_cases(rng, n, tier):
+    specs = [(rng.choice(MALFORMED), None) for _ in range(n // 10)]
+    for fam, frac in FAMILIES:
+        specs += [(None, fam)] * max(1, int(n * frac))
+    specs += [(None, None)] * max(0, n - len(specs) - sum(1 for _, f in specs if f == "twin"))   # a twin yields two cases
+    rng.shuffle(specs)
     cases = []
-    n_mal = n // 8
-    for i in range(n):
-        mal = rng.choice(MALFORMED) if i >= n - n_mal else None
-        c = make_case(S.gen_input(rng, tier, malformed=mal))
-        c["monitor"] = monitor_full(c["input"], *c.pop("_full"))
-        cases.append(c)
+    for mal, fam in specs:
+        cases += make_cases(S.gen_input(rng, tier, malformed=mal, family=fam))
     return cases
 
 
@@ -133,8 +146,13 @@ def expected_infra(inp):
 def monitor_full(inp, impl, mut):
     if impl.get("stage") == "build":
         return None
+    for tr in (impl, mut):
+        if tr.get("flags"):
+            return tr["flags"][0]
     if not same_trace(impl, mut):
         return "a scheduler that mutates the objects it receives changed the simulation"
+    if impl["error"] == "unresumed":
+        return "run() could not be resumed after the scheduler had raised"
     k = inp["max_recompute"]
     period = inp["period"]
     calls = impl["calls"]
@@ -152,11 +170,11 @@ def monitor_full(inp, impl, mut):
         if called != want:
             return "period %d: scheduler %s although %s" % (t, "invoked" if called else "not invoked",
                                                            "no event and recompute not due" if not want else "it was required")
-    names = [S.st_name(st["num"]) for st in inp["net"]["stations"]]
-    by_name = {S.sess_name(s["sid"]): s for s in inp["sessions"]}
-    volt = {S.st_name(st["num"]): st["voltage"] for st in inp["net"]["stations"]}
+    nums = [st["num"] for st in inp["net"]["stations"]]
+    n = len(nums)
+    by_sid = {s["sid"]: s for s in inp["sessions"]}
+    volt = {st["num"]: st["voltage"] for st in inp["net"]["stations"]}
     exp_infra = expected_infra(inp)
-    exp_cmat = S.expected_cmat(inp["net"])
     for c in calls:
         t = c["t"]
         if c["n_hist"] != sum(1 for u in tags if u <= t):
@@ -169,12 +187,14 @@ def monitor_full(inp, impl, mut):
         if [s["sid"] for s in c["sessions"]] != [x["sid"] for x in act]:
             return "period %d: active sessions %s, connected and unsatisfied %s" % (
                 t, [s["sid"] for s in c["sessions"]], [x["sid"] for x in act])
-        for s, x in zip(c["sessions"], act):
-            inp_s = by_name.get(s["sid"])
+        for s, x, ap in zip(c["sessions"], act, c["amp_periods"]):
+            inp_s = by_sid.get(s["sid"])
             if inp_s is None:
                 return "period %d: unknown session %s" % (t, s["sid"])
+            if len([y for y in inp["sessions"] if y["sid"] == s["sid"]]) > 1:
+                continue                  # duplicate ids (malformed stream): which record is meant is ambiguous
             est = inp_s["est"] if inp_s["est"] is not None else inp_s["departure"]
-            if (s["station"] != names[x["idx"]] or s["station"] != S.st_name(inp_s["station"]) or s["req"] != inp_s["req"]
+            if (s["station"] != nums[x["idx"]] or s["station"] != inp_s["station"] or s["req"] != inp_s["req"]
                     or s["arr"] != inp_s["arrival"] or s["dep"] != inp_s["departure"] or s["est"] != est or s["time"] != t):
                 return "period %d: SessionInfo of %s does not describe the session" % (t, s["sid"])
             rem = max(min(s["dep"] - s["arr"], s["dep"] - t), 0)
@@ -187,9 +207,14 @@ def monitor_full(inp, impl, mut):
                          for u in range(max(inp_s["arrival"], 0), min(t, len(impl["rates"]))))
             if t <= len(impl["rates"]) and not close(ledger, s["deliv"], 1e-7):
                 return "period %d: energy_delivered of %s is %r, the rates add up to %r" % (t, s["sid"], s["deliv"], ledger)
+            want_ap = x["rd"] * 1000 / volt[s["station"]] * 60 / period
+            if not close(ap, want_ap, 1e-9):
+                return "period %d: remaining_amp_periods of %s is %r, remaining demand gives %r" % (t, s["sid"], ap, want_ap)
         want_rates = [(x["sid"], x["rate"]) for x in act]
         if c["last_rates"] != want_rates:
             return "period %d: last_actual_charging_rate %s, true %s" % (t, c["last_rates"], want_rates)
+        if c["evs_accessor"] != [(x["sid"], x["energy"], x["rate"]) for x in act]:
+            return "period %d: Interface.active_evs reports %s, true %s" % (t, c["evs_accessor"], [(x["sid"], x["energy"], x["rate"]) for x in act])
         if t >= 2:
             want_p = [(x["sid"], c["truth_pilots"][x["idx"]]) for x in act if x["arrival"] <= t - 1]
         else:
@@ -202,38 +227,48 @@ def monitor_full(inp, impl, mut):
         if t <= len(impl["rates"]) and not close(agg, c["peak"], 1e-9):
             return "period %d: get_prev_peak %r, rates so far peak at %r" % (t, c["peak"], agg)
         i = c["infra"]
-        if (i["ids"] != names or i["voltages"] != [float(st["voltage"]) for st in inp["net"]["stations"]]
+        if (i["ids"] != nums or i["voltages"] != [float(st["voltage"]) for st in inp["net"]["stations"]]
                 or i["phases"] != [float(st["phase"]) for st in inp["net"]["stations"]]):
-            return "period %d: infrastructure ids / voltages / phases" % t
+            return "period %d: infrastructure ids / voltages / phases %s %s" % (t, i["ids"], i["voltages"])
         if i["max"] != exp_infra["max"] or i["min"] != exp_infra["min"] or i["allow"] != exp_infra["allow"] or i["cont"] != exp_infra["cont"]:
             return "period %d: infrastructure pilot limits / allowable pilots" % t
-        if i["cmat"] != exp_cmat or i["limits"] != [float(cc["limit"]) for cc in inp["net"]["constraints"]] \
-                or i["cids"] != ["C%d" % cc["num"] for cc in inp["net"]["constraints"]]:
-            return "period %d: constraint matrix / limits / names" % t
+        cons = c["expected_constraints"]          # the harness's own record of the constraints in force
+        if i["cmat"] != S.cmat_of(cons, n) or i["limits"] != [float(cc["limit"]) for cc in cons] \
+                or i["cids"] != [cc["num"] for cc in cons]:
+            return "period %d: constraint matrix / limits / names: shown %s %s, in force %s %s" % (
+                t, i["cids"], i["limits"], [cc["num"] for cc in cons], [float(cc["limit"]) for cc in cons])
         g = c["constraints"]
         if g["cmat"] != i["cmat"] or g["limits"] != i["limits"] or g["cids"] != i["cids"] or g["ids"] != i["ids"]:
             return "period %d: get_constraints() differs from infrastructure_info()" % t
         for j, (ap, mx, mn, vv, ph) in enumerate(c["per_station"]):
             if (list(ap[1]) != i["allow"][j] or bool(ap[0]) != i["cont"][j] or mx != i["max"][j] or mn != i["min"][j]
                     or vv != i["voltages"][j] or ph != i["phases"][j]):
-                return "period %d: per-station accessor of %s differs from infrastructure_info()" % (t, names[j])
+                return "period %d: per-station accessor of station %s differs from infrastructure_info()" % (t, nums[j])
     return None
 
 
 def monitor(case):
-    if case.get("ambiguous"):
-        return None
     return case.get("monitor")
+
+
+def both(inp):
+    return S.run_impl(inp), S.run_impl(inp, mutate=True)
+
+
+def full_monitor(inp):
+    impl, mut = both(inp)
+    r = monitor_full(inp, impl, mut)
+    if not r and "twin_trace" in impl and "twin_trace" in mut:
+        r = monitor_full(dict(inp["twin"], family="twin"), impl["twin_trace"], mut["twin_trace"])
+    return r, impl
 
 
 def search(rng, budget_s, broken):
     t0 = time.time()
+    fams = [None, None, None, "reuse", "twin", "resume", "netupdate"]
     while time.time() - t0 < budget_s:
-        inp = S.gen_input(rng, "quick")
-        impl, mut = S.run_impl(inp), S.run_impl(inp, mutate=True)
-        if min(impl["min_margin"], mut["min_margin"]) < 1e-7:
-            continue
-        r = monitor_full(inp, impl, mut)
+        inp = S.gen_input(rng, "quick", family=rng.choice(fams))
+        r, impl = full_monitor(inp)
         if r:
             inp, r = shrink(inp, r)
             return dict(case=inp, impl=slim(S.run_impl(inp)), why=r)
@@ -249,7 +284,7 @@ def shrink(inp, why):
             while i < len(inp[key]):
                 cand = dict(inp)
                 cand[key] = inp[key][:i] + inp[key][i + 1:]
-                r = monitor_full(cand, S.run_impl(cand), S.run_impl(cand, mutate=True))
+                r, _ = full_monitor(cand)
                 if r:
                     inp, why, changed = cand, r, True
                 else:
@@ -259,4 +294,6 @@ def shrink(inp, why):
 
 def replay(w):
     inp = w["case"]
-    return monitor_full(inp, S.run_impl(inp), S.run_impl(inp, mutate=True))
+    if inp.get("family") == "twin" and "twin" not in inp:
+        inp = dict(inp, family="plain")
+    return full_monitor(inp)[0]
